@@ -508,6 +508,10 @@ class ThreadWrapper(Unit):
         he_k = E.fork(2, '_handle_exception')  # returns / re-raises
         boom, boom2, base = AbsExc(1), AbsExc(2), AbsBase()
         prev_k = E.fork(3, 'previous')         # no predecessor / alive predecessor / finished predecessor
+        # disconnect() may have interrupted this thread already, before it ever ran (a successor queued behind a live
+        # predecessor and disconnected again before the take-over): it must still take the slot over and clear the successor
+        # slot, or the connection stays "busy" for ever (seeded change C16-r8)
+        intr0 = bool(E.fork(2, 'interrupted-before-start'))
         prev = None
         if prev_k:
             prev = types.SimpleNamespace(is_alive=lambda: events.append('is_alive') or prev_k == 1,
@@ -531,7 +535,7 @@ class ThreadWrapper(Unit):
                 raise e
         conn.__dict__['_handle_exit'] = _handle_exit
         conn.__dict__['_handle_exception'] = _handle_exception
-        t.__dict__.update(connection=conn, previous_thread=prev, interrupt=False, _run=_run)
+        t.__dict__.update(connection=conn, previous_thread=prev, interrupt=intr0, _run=_run)
         install_exc_info(I)
         try:
             I.call(raw(NetworkingThread, 'run'), t)
@@ -540,7 +544,7 @@ class ThreadWrapper(Unit):
             outcome = e.exc
         he = [x for x in events if isinstance(x, tuple)]
         if prev_k:
-            i_run = events.index('_run')
+            i_run = events.index('_run') if '_run' in events else len(events)
             E.check('handover.join-before-run', (events[:2] == ['is_alive', 'join'] if prev_k == 1 else events[:1] == ['is_alive'])
                     and 'join' not in events[i_run:], note='no _run step before the predecessor has finished')
             sets = [x for x in conn.log if x[0] in ('networking_thread', 'new_networking_thread')]
@@ -571,7 +575,7 @@ class ThreadWrapper(Unit):
 
     def bounded(self, rng, tier):
         rp = replay_wrapper()
-        return dict(name='C14.thread-wrapper.concrete', evaluations=rp['n'], bound='3 x 3 x 2 x 2 concrete behaviours of the predecessor/_run/_handle_exit/_handle_exception',
+        return dict(name='C14.thread-wrapper.concrete', evaluations=rp['n'], bound='3 x 2 x 3 x 2 x 2 concrete behaviours of the predecessor / interrupted-before-start / _run / _handle_exit / _handle_exception',
                     failures=[dict(call=rp['call'], observed=rp['observed'], witness='thread-wrapper')] if rp['confirmed'] else [])
 
 
@@ -579,7 +583,8 @@ def replay_wrapper():
     """NetworkingThread.run on a real thread object (run() called directly) with concrete stub behaviours."""
     import threading
     n = 0
-    for prev_k in range(3):                  # no predecessor / predecessor still alive / predecessor already finished
+    import itertools
+    for prev_k, intr0 in itertools.product(range(3), (False, True)):   # no / live / finished predecessor; interrupted before it ever ran
       for run_k in range(3):
         for exit_k in range(2):
             for he_k in range(2):
@@ -591,6 +596,7 @@ def replay_wrapper():
                     prev = types.SimpleNamespace(is_alive=lambda: prev_k == 1 and not joined, join=lambda: joined.append(1))
                 t = NetworkingThread(conn)
                 t.previous_thread = prev
+                t.interrupt = intr0
                 if prev_k:
                     conn.new_networking_thread = t
                 seen = []
@@ -636,9 +642,10 @@ def replay_wrapper():
                 elif exp is not None and he_k and out is not exp:
                     bad = 're-raise did not propagate'
                 if bad:
-                    return dict(confirmed=True, n=n, call='NetworkingThread.run with %s, _run kind %d, exit kind %d'
-                                % (('no predecessor', 'a live predecessor', 'a finished predecessor')[prev_k], run_k, exit_k), observed=bad)
-    return dict(confirmed=False, n=n, call='NetworkingThread.run over 36 stub behaviours', observed='conforms')
+                    return dict(confirmed=True, n=n, call='NetworkingThread.run with %s%s, _run kind %d, exit kind %d'
+                                % (('no predecessor', 'a live predecessor', 'a finished predecessor')[prev_k],
+                                   ', interrupted before it started' if intr0 else '', run_k, exit_k), observed=bad)
+    return dict(confirmed=False, n=n, call='NetworkingThread.run over 72 stub behaviours', observed='conforms')
 
 
 class ExceptionClasses(Unit):
